@@ -482,16 +482,19 @@ func (m *MemoryBackend) Terminate(client *Client) error {
 	// get session
 	sess, _ := client.Session().(*memorySession)
 
-	// release session if available
-	if sess != nil {
+	// release session if available and still held by this client
+	if sess != nil && sess.activeClient == client {
 		sess.activeClient = nil
 	}
 
 	// remove any temporary session
 	delete(m.temporarySessions, client)
 
-	// remove any saved client
-	delete(m.activeClients, client.ID())
+	// remove the saved client, but never the entry of another client with the
+	// same id (a client whose setup failed has not been saved)
+	if m.activeClients[client.ID()] == client {
+		delete(m.activeClients, client.ID())
+	}
 
 	return nil
 }
